@@ -67,6 +67,86 @@ def _work(args):
     return res
 
 
+def _worker_main(conn):
+    while True:
+        try:
+            msg = conn.recv()
+        except EOFError:
+            return
+        if msg is None:
+            return
+        idx, w = msg
+        conn.send((idx, _work(w)))
+
+
+def _run_pool(work, jobs, maxtasks):
+    """fork pool that survives the abrupt death of a worker (z3 aborting under the address-space limit, the kernel's
+    OOM killer): the item the worker was running is recorded as inconclusive, a new worker takes over.
+    (multiprocessing.Pool silently loses such an item and waits for it forever.)"""
+    from multiprocessing.connection import wait
+    ctx = mp.get_context("fork")
+    results = [None] * len(work)
+    todo = list(range(len(work)))[::-1]
+    workers = {}  # conn -> [proc, current index, tasks done]
+
+    def spawn():
+        a, b = ctx.Pipe()
+        p = ctx.Process(target=_worker_main, args=(b,), daemon=True)
+        p.start()
+        b.close()
+        workers[a] = [p, None, 0]
+        return a
+
+    def feed(c):
+        w = workers[c]
+        if not todo:
+            try:
+                c.send(None)
+            except OSError:
+                pass
+            c.close()
+            w[0].join(5)
+            del workers[c]
+            return
+        if maxtasks and w[2] >= maxtasks:
+            try:
+                c.send(None)
+            except OSError:
+                pass
+            c.close()
+            w[0].join(5)
+            del workers[c]
+            c = spawn()
+            w = workers[c]
+        w[1] = todo.pop()
+        c.send((w[1], work[w[1]]))
+
+    for _ in range(jobs):
+        feed(spawn())
+    while workers:
+        for c in wait(list(workers)):
+            w = workers[c]
+            try:
+                idx, res = c.recv()
+            except (EOFError, OSError):
+                # the worker is gone without an answer
+                w[0].join(5)
+                idx = w[1]
+                if idx is not None:
+                    results[idx] = {"inconclusive": 1, "worker_deaths": 1,
+                                    "notes": ["the worker exploring %s died (exit code %s: out of memory under the address-space limit or killed); the item is counted as inconclusive" % (_short(work[idx][1]), w[0].exitcode)]}
+                c.close()
+                del workers[c]
+                if todo:
+                    feed(spawn())
+                continue
+            results[idx] = res
+            w[1] = None
+            w[2] += 1
+            feed(c)
+    return [r if r is not None else {"inconclusive": 1, "notes": ["item not run"]} for r in results]
+
+
 def _short(x, n=200):
     s = repr(x)
     return s if len(s) <= n else s[:n] + "..."
@@ -138,10 +218,7 @@ def main(argv=None):
         for w in work:
             results.append(_work(w))
     else:
-        ctx = mp.get_context("fork")
-        with ctx.Pool(jobs, maxtasksperchild=getattr(mod, "MAXTASKS", None)) as pool:
-            for r in pool.imap_unordered(_work, work, chunksize=getattr(mod, "CHUNK", 1)):
-                results.append(r)
+        results = _run_pool(work, jobs, getattr(mod, "MAXTASKS", None))
 
     # ---- aggregate
     agg = {}
